@@ -3,6 +3,7 @@
 package main
 
 import (
+	"os"
 	"context"
 	"encoding/json"
 	"errors"
@@ -36,6 +37,7 @@ type step struct {
 	Kind string        `json:"step"` // park | launch | release | advance | settle
 	Op   *opSpec       `json:"op,omitempty"`
 	D    time.Duration `json:"d,omitempty"`
+	Perm uint32        `json:"perm,omitempty"` // chmod-hooks: new permission bits of the hooks directory
 }
 
 type schedCase struct {
@@ -328,6 +330,9 @@ func runSchedule(c schedCase, probes []opSpec) (out schedOutcome) {
 		return
 	}
 	defer e.cleanup()
+	if c.Hooks != "" {
+		defer os.Chmod(c.Hooks, 0o755)
+	}
 	sc := &sched{e: e}
 	for _, st := range c.Steps {
 		if st.Op != nil && st.Op.Via == "api" && sc.adminTok == "" {
@@ -376,6 +381,11 @@ func runSchedule(c schedCase, probes []opSpec) (out schedOutcome) {
 		case "advance", "advance-parked":
 			time.Sleep(st.D)
 			synctest.Wait()
+		case "chmod-hooks":
+			// an operator (or anybody else) changes the mode of the hooks directory while the agent runs
+			if c.Hooks != "" {
+				os.Chmod(c.Hooks, os.FileMode(st.Perm))
+			}
 		case "settle":
 			sc.release()
 			if w := sc.settle(); w != "" {
